@@ -263,6 +263,7 @@ fn check_value<D: Store + Mk>(v: &V, probe_absent: &[u64], acc: &mut Acc) {
                 Ok(a) => a,
                 Err(_) => continue,
             };
+            let depth_before = m.depth();
             let one = match exec_one_at(&mut m, ins, None, &[addr, qa]) {
                 Ok(o) => o,
                 Err(e) => {
@@ -298,7 +299,19 @@ fn check_value<D: Store + Mk>(v: &V, probe_absent: &[u64], acc: &mut Acc) {
                             payload(&format!("{:?} {}", ins, q.show())),
                         );
                     }
-                    let _ = m.pop_register();
+                    // the two operands are replaced by exactly one result, whatever the query walked through
+                    if m.depth() != depth_before + 1 {
+                        acc.violation(
+                            format!("result-count|{}", sigbase),
+                            format!("[{}] {} {:?} {} left {} operands where the two operands stood (exactly one result expected)", D::NAME, v.show(), ins, q.show(), m.depth() as i64 - depth_before as i64),
+                            payload(&format!("{:?} {}", ins, q.show())),
+                        );
+                    }
+                    while m.depth() > depth_before {
+                        if m.pop_register().is_err() {
+                            break;
+                        }
+                    }
                 }
                 (Ok(_), other) => acc.violation(
                     format!("unreadable|{}", sigbase),
